@@ -31,6 +31,7 @@ class NohBlackBoxEos(ExactSolver):
 
         def __init__(self, equation_of_state, initial_conditions = {'density': 1, 'velocity': -1, 'pressure': 0, 'symmetry': 2}, **kwargs): # EoS object (as of now) is designed to be object from the eos_library.py file.
             super(NohBlackBoxEos, self).__init__(**kwargs)
+            self.solver = newton_solver() # one Newton solver per instance: its tolerance, guess and function are per-problem state
             self.eos = equation_of_state
             self.symmetry = initial_conditions['symmetry']
             self.initial_conditions =initial_conditions # Maybe refactor this later so users can change initial conditions. For now focus on black box eos interaction.
